@@ -293,26 +293,63 @@ func c14gConfigCopies(c *eng.Ctx) {
 			if !c14IsAllocOf(v, "kv.Configuration") {
 				if isCacheLoad(v) {
 					c.Violation(f, "alias{configuration handed out is not the cached object}", r.Pos(), aliased, nil)
-				} else {
-					c.Violation(f, site, r.Pos(), "config returns "+eng.ExprDeep(v)+", not a literal copy of the cached configuration", nil)
-				}
-				continue
-			}
-			set := 0
-			var missing []string
-			for _, fld := range fields {
-				vs := eng.StructLitField(v, fld)
-				if len(vs) == 0 {
-					missing = append(missing, fld+" (not set)")
 					continue
 				}
-				set++
-				for _, fv := range vs {
-					if ld, base := c14LoadOfField(fv, fld); ld == nil || !isCacheLoad(base) {
-						missing = append(missing, fld+" = "+eng.ExprDeep(fv))
+				// the copy may be made by a helper of the package: every value it returns must be a
+				// fresh literal with every setting copied from the parameter that receives the cache
+				if cl, isCall := v.(*ssa.Call); isCall {
+					if g := cl.Call.StaticCallee(); g != nil && eng.InPkg(g, "kv") && len(g.Blocks) > 0 && len(g.Params) == len(cl.Call.Args) {
+						pi := -1
+						for i, a := range cl.Call.Args {
+							if isCacheLoad(a) {
+								pi = i
+							}
+						}
+						if pi < 0 {
+							c.Violation(f, site, r.Pos(), "config returns "+eng.ExprDeep(v)+", which is not handed the cached configuration", nil)
+							continue
+						}
+						src := ssa.Value(g.Params[pi])
+						var bad []string
+						isAlias := false
+						nLit := 0
+						for _, gr := range eng.Returns(g) {
+							gvals, _, _ := eng.ReturnVals(gr, 0)
+							if len(gvals) == 0 && len(gr.Results) > 0 {
+								gvals = []ssa.Value{gr.Results[0]}
+							}
+							for _, gv := range gvals {
+								switch {
+								case c14Resolve(gv) == src:
+									isAlias = true
+								case !c14IsAllocOf(gv, "kv.Configuration"):
+									bad = append(bad, "returns "+eng.ExprDeep(gv))
+								default:
+									nLit++
+									set, missing := c14gCopyCheck(gv, fields, func(base ssa.Value) bool { return c14Resolve(base) == src })
+									if set == 0 {
+										bad = append(bad, "returns an empty Configuration")
+									}
+									bad = append(bad, missing...)
+								}
+							}
+						}
+						switch {
+						case isAlias:
+							c.Violation(f, "alias{configuration handed out is not the cached object}", r.Pos(), eng.FuncName(g)+" returns its argument: "+aliased, nil)
+						case len(bad) > 0 || nLit == 0:
+							c.Violation(f, site, r.Pos(), "the helper "+eng.FuncName(g)+" that copies the cached engine configuration is incomplete or mixed up: "+strings.Join(bad, "; ")+" — a warm cache changes cas_required / max_versions semantics", nil)
+						default:
+							nCopies++
+							c.OK(f, site, r.Pos(), eng.FuncName(g)+" returns a fresh literal copying "+strings.Join(fields, ", ")+" from the cached configuration it is handed")
+						}
+						continue
 					}
 				}
+				c.Violation(f, site, r.Pos(), "config returns "+eng.ExprDeep(v)+", not a literal copy of the cached configuration", nil)
+				continue
 			}
+			set, missing := c14gCopyCheck(v, fields, isCacheLoad)
 			if set == 0 {
 				if installed[v] {
 					c.Violation(f, "alias{configuration handed out is not the cached object}", r.Pos(), aliased, nil)
@@ -331,6 +368,25 @@ func c14gConfigCopies(c *eng.Ctx) {
 	}
 	c.Floor(f, "configuration values returned", nRet, 2)
 	c.Floor(f, "literal copies of the cached configuration", nCopies, 2)
+}
+
+// c14gCopyCheck: which of the settings the Configuration literal lit sets, and
+// which are missing or not loaded from the same-named field of a source object.
+func c14gCopyCheck(lit ssa.Value, fields []string, isSource func(base ssa.Value) bool) (set int, missing []string) {
+	for _, fld := range fields {
+		vs := eng.StructLitField(lit, fld)
+		if len(vs) == 0 {
+			missing = append(missing, fld+" (not set)")
+			continue
+		}
+		set++
+		for _, fv := range vs {
+			if ld, base := c14LoadOfField(fv, fld); ld == nil || !isSource(base) {
+				missing = append(missing, fld+" = "+eng.ExprDeep(fv))
+			}
+		}
+	}
+	return set, missing
 }
 
 // ---- the JSON merge behind patch: current data is the document, the request is the patch
